@@ -10,6 +10,8 @@ import (
 	"net/url"
 	"path"
 	"strings"
+
+	"github.com/olareg/olareg/internal/simrt"
 )
 
 func rawRequest(w *World, op Op) {
@@ -21,6 +23,23 @@ func rawRequest(w *World, op Op) {
 		}
 	}
 	rs := reqSpec{method: rq.Method, path: rq.Path, query: rq.Query, hdr: hdr, addr: rq.Addr}
+	if strings.HasPrefix(rq.Path, "{loc") {
+		// a request aimed at the session the server announced last
+		ph, fallback, _ := strings.Cut(rq.Path, "}")
+		rs.path = fallback
+		if w.lastLoc != "" {
+			lp, lq, _ := strings.Cut(w.lastLoc, "?")
+			rs.path = lp
+			if ph == "{loc" && lq != "" {
+				if rs.query != "" {
+					rs.query = lq + "&" + rs.query
+				} else {
+					rs.query = lq
+				}
+			}
+			simrt.Probe("fuzz.live-session")
+		}
+	}
 	if len(rq.Body) > 0 || rq.CL != 0 {
 		rs.body = append([]byte{}, rq.Body...)
 	}
@@ -29,9 +48,9 @@ func rawRequest(w *World, op Op) {
 		rs.cl = &cl
 	}
 	// which repositories could this address? every prefix of the path that is a repository name
-	up, err := url.PathUnescape(rq.Path)
+	up, err := url.PathUnescape(rs.path)
 	if err != nil {
-		up = rq.Path
+		up = rs.path
 	}
 	up = path.Clean("/" + up)
 	el := strings.Split(strings.Trim(up, "/"), "/")
